@@ -9,8 +9,8 @@ ID = "C10"
 RULE = (
     "cases = ModelSpecs without derivative parameters (junctions, duration groups with per-bin state, transfers, functions of state and time, programs active before/after Y) x interior "
     "grid year Y x chain of 1-3 restarts x {in-memory, calibration-spreadsheet round trip of the saved state}; oracle: the run restarted at Y from ParameterSet.set_initialization(result, Y) "
-    "equals the tail of the original run for all compartments (per elapsed-time bin), flows, characteristics and parameters at every index >= Y: bitwise when the two time grids are "
-    "bit-equal (dyadic dt), else 1e-9; spreadsheet form: the loaded state equals the saved state to 1e-14, the first step matches to 1e-9 and later differences are counted as inconclusive (amplified storage rounding); non-trivial = the state at Y has non-empty timed bins or active programs and Y strictly inside; "
+    "equals the tail of the original run for all compartments (per elapsed-time bin), flows, characteristics and parameters at every index >= Y: bitwise over the whole tail when the two time grids are "
+    "bit-equal (dyadic dt); on other grids the restart step itself (offsets 0 and 1) to 1e-9 and later differences counted as inconclusive; spreadsheet form: the loaded state equals the saved state to 1e-14, the first step matches to 1e-9 and later differences are counted as inconclusive (amplified storage rounding); non-trivial = the state at Y has non-empty timed bins or active programs and Y strictly inside; "
     "distinct = case hash"
 )
 ASSUMPTIONS = [
@@ -151,6 +151,12 @@ def check(case):
                 mode = "%g" % rt
             if bad.any() and case["via_spreadsheet"] and not bad[..., :2].any():
                 inconclusive["spreadsheet tail beyond one step differs by more than 1e-9 (amplified 1e-16 storage rounding)"] = 1
+                continue
+            if bad.any() and not exact and not bad[..., :2].any():
+                # On a non-dyadic grid the restarted times differ from the parent's in the last bits, and a model may amplify that without
+                # bound (weighted averages with vanishing weights, x**0.25 of a cancellation residue, branches).  The restart step itself
+                # (offsets 0 and 1) is compared strictly; the full tail is decided bitwise on the dyadic grids (half of the cases).
+                inconclusive["non-dyadic grid: tail beyond the restart step differs by more than 1e-9 (restart step itself agrees)"] = 1
                 continue
             if bad.any() and not exact:
                 # control experiment: restart from the same saved state perturbed in the last bits.  If that run differs from the parent
